@@ -9,7 +9,7 @@ denotation is `denote d i : Tree`.
 
 Transcription rules
 * `while let Some(current) = stack.pop()` is `loop` (explicit fuel; `internTreeLimited` supplies
-  `3·|d| + 2`, and `Lemmas/Intern.lean` proves that this is never exhausted on a well-formed DAG);
+  `5·|d| + 2`, and `Lemmas/InternLoop.lean` proves that this is never exhausted on a well-formed DAG);
   the body of the loop is `step`, with every branch in the order written.
 * The three `HashMap`s are association lists with `List.lookup` (newest binding first); a key is
   inserted at most once, as in the Rust (`Entry::Vacant` / `contains_key` guard).
@@ -208,7 +208,7 @@ def loop (d : Dag) : Nat → State → Except Err State
       | .error e => .error e
       | .ok s' => loop d fuel s'
 
-def fuelFor (d : Dag) : Nat := 3 * d.size + 2
+def fuelFor (d : Dag) : Nat := 5 * d.size + 2
 
 /-- `intern_tree_limited(source, node, heap_limit)` -/
 def internTreeLimited (d : Dag) (node : Nat) (heapLimit : Nat) : Except Err InternedTree :=
